@@ -1,64 +1,118 @@
-import BbRe.Lemmas.SusClock
+import BbRe.Lemmas.SusClockLate
 /-!
 Helper lemmas for C11, part 2: the re-arm loop of `NewContextWithTimeout` /
-`NewTimer` (`loop`): termination (fuel elimination) and the loop invariant
-`unsuspTo tl a + d = final`.
+`NewTimer` (`loop`), with expiries that may be handled late: termination (fuel
+elimination) and the loop invariant
+`final ≤ unsuspTo a + d ≤ final + unsuspended pT a`.
 -/
 namespace BbRe.Lemmas.SusClock
 open BbRe.SusClock
 
+/-- The value computed when the next expiry (stamp `T`) is handled lies between the
+unsuspended time at the stamp and at the handling instant. -/
+theorem next_bracket {tl : List Ev} (hs : Sorted tl) (hb : Balanced tl) (T : Nat) (dv : List Delivery)
+    (hok : nextOk tl (T + nextLate dv) dv = true) :
+    unsuspTo tl T ≤ (nextClk tl T dv).totalWithTime T ∧
+    (nextClk tl T dv).totalWithTime T ≤ unsuspTo tl (T + nextLate dv) := by
+  cases dv with
+  | nil =>
+    simp only [nextClk, nextLate, Nat.add_zero, clockAt_totalWithTime hs hb]
+    exact ⟨Nat.le_refl _, Nat.le_refl _⟩
+  | cons x rest =>
+    simp only [nextOk, nextLate] at hok
+    have := charge_bracket hs hb (T := T) hok (Nat.le_add_right _ _)
+    exact ⟨this.1, this.2.1⟩
+
 /-- More fuel never changes an answer. -/
-theorem loop_fuel_mono (P : Params) (tl : List Ev) (cn : Option Cancel) (initial final dl : Nat) :
-    ∀ (fuel a d : Nat) (r : Result), loop P tl cn initial final dl fuel a d = some r →
-      ∀ k, loop P tl cn initial final dl (fuel + k) a d = some r
-  | 0, _, _, _, h, _ => by simp [loop] at h
-  | fuel + 1, a, d, r, h, k => by
+theorem loop_fuel_mono (P : Params) (g : Nat) (tl : List Ev) (cn : Option Cancel) (initial final dlAt : Nat)
+    (dlPre : Bool) :
+    ∀ (fuel a d pT : Nat) (dv : List Delivery) (o : Out),
+      loop P g tl cn initial final dlAt dlPre fuel a d pT dv = o → o ≠ .outOfFuel →
+      ∀ k, loop P g tl cn initial final dlAt dlPre (fuel + k) a d pT dv = o
+  | 0, _, _, _, _, o, h, hne, _ => by simp [loop] at h; exact absurd h.symm hne
+  | fuel + 1, a, d, pT, dv, o, h, hne, k => by
     have hk : fuel + 1 + k = (fuel + k) + 1 := by omega
     rw [hk]
     unfold loop at h ⊢
     simp only at h ⊢
     split
-    · rename_i tc hc; simp only [hc] at h; exact h
-    · rename_i hc
-      simp only [hc] at h
+    · rename_i hg; simp only [hg, if_true] at h; exact h
+    · rename_i hg
+      simp only [hg, if_false] at h
       split
-      · rename_i he
-        simp only [he, if_true] at h
+      · rename_i tc hc; simp only [hc] at h; exact h
+      · rename_i hc
+        simp only [hc] at h
         split
-        · rename_i hd; simp only [hd, if_true] at h; exact h
-        · rename_i hd
-          simp only [hd, if_false] at h
-          exact loop_fuel_mono P tl cn initial final dl fuel _ _ r h k
-      · rename_i he; simp only [he, if_false] at h; exact h
+        · rename_i he
+          simp only [he, if_true] at h
+          split
+          · rename_i hv; simp only [hv, if_true] at h; exact h
+          · rename_i hv
+            simp only [hv] at h
+            split
+            · rename_i hd; simp only [hd, if_true] at h; exact h
+            · rename_i hd
+              simp only [hd, if_false] at h
+              exact loop_fuel_mono P g tl cn initial final dlAt dlPre fuel _ _ _ _ o h hne k
+        · rename_i he; simp only [he, if_false] at h; exact h
 
-/-- Termination: when the threshold is positive every re-arm moves the next
-expiry at least one tick (in fact `thr` ticks) towards the base deadline. -/
-theorem loop_total (P : Params) (tl : List Ev) (cn : Option Cancel) (initial final dl : Nat)
-    (hthr : 1 ≤ P.thr) :
-    ∀ (fuel a d : Nat), 1 ≤ fuel → dl + 2 ≤ fuel + (a + d) →
-      ∃ r, loop P tl cn initial final dl fuel a d = some r
-  | 0, _, _, h, _ => by omega
-  | fuel + 1, a, d, _, hf => by
+/-- Termination: when the threshold is positive every re-arm moves the next stamp at
+least one tick (in fact `thr` ticks) towards the delivery of the base deadline. -/
+theorem loop_total (P : Params) (g : Nat) (tl : List Ev) (cn : Option Cancel) (initial final dlAt : Nat)
+    (dlPre : Bool) (hthr : 1 ≤ P.thr) :
+    ∀ (fuel a d pT : Nat) (dv : List Delivery), 1 ≤ fuel → dlAt + 2 ≤ fuel + (a + d) →
+      loop P g tl cn initial final dlAt dlPre fuel a d pT dv ≠ .outOfFuel
+  | 0, _, _, _, _, h, _ => by omega
+  | fuel + 1, a, d, pT, dv, _, hf => by
     unfold loop
     simp only
     split
-    · exact ⟨_, rfl⟩
+    · intro h; cases h
     · split
-      · rename_i he
-        split
-        · exact ⟨_, rfl⟩
-        · rename_i hd
-          exact loop_total P tl cn initial final dl hthr fuel _ _ (by omega) (by omega)
-      · exact ⟨_, rfl⟩
+      · intro h; cases h
+      · split
+        · rename_i he
+          split
+          · intro h; cases h
+          · split
+            · intro h; cases h
+            · rename_i hd
+              exact loop_total P g tl cn initial final dlAt dlPre hthr fuel _ _ _ _ (by omega) (by omega)
+        · intro h; cases h
+
+/-- Without recorded late deliveries the oracle is never rejected. -/
+theorem loop_nil_ok (P : Params) (g : Nat) (tl : List Ev) (cn : Option Cancel) (initial final dlAt : Nat)
+    (dlPre : Bool) :
+    ∀ (fuel a d pT : Nat), loop P g tl cn initial final dlAt dlPre fuel a d pT [] ≠ .badOracle
+  | 0, _, _, _ => by simp [loop]
+  | fuel + 1, a, d, pT => by
+    unfold loop
+    simp only [nextLate, nextOk, Nat.not_lt_zero, if_false, List.tail_nil, Bool.true_eq_false]
+    intro h
+    split at h
+    · cases h
+    · split at h
+      · split at h
+        · cases h
+        · exact loop_nil_ok P g tl cn initial final dlAt dlPre fuel _ _ _ h
+      · cases h
 
 /-- What every answer of the loop satisfies (`U = unsuspTo tl`). -/
-structure LoopOk (P : Params) (tl : List Ev) (cn : Option Cancel) (t0 final dl a : Nat) (r : Result) : Prop where
-  wall : r.instant ≤ dl
-  start : t0 ≤ r.instant
-  dur : r.dur = unsuspTo tl r.instant - unsuspTo tl t0
-  budget : unsuspTo tl r.instant ≤ final
-  timeout : r.reason = .timeout → final < unsuspTo tl r.instant + P.thr
-  capped : r.reason = .capped → r.instant = dl
+structure LoopOk (P : Params) (g : Nat) (tl : List Ev) (cn : Option Cancel) (t0 final dlAt a : Nat) (r : Result) :
+    Prop where
+  wall : r.instant ≤ dlAt
+  start : t0 ≤ r.stamp
+  stampLe : r.stamp ≤ r.instant
+  late : r.instant ≤ r.stamp + g
+  prevLe : r.pStamp ≤ r.pAt
+  prevLate : r.pAt ≤ r.pStamp + g
+  durUp : r.dur + unsuspTo tl t0 ≤ unsuspTo tl r.instant
+  durLo : unsuspTo tl r.stamp ≤ r.dur + unsuspTo tl t0
+  durExact : r.reason ≠ .timeout → r.dur + unsuspTo tl t0 = unsuspTo tl r.instant
+  budgetStamp : unsuspTo tl r.stamp ≤ final + unsuspended tl r.pStamp r.pAt
+  timeout : r.reason = .timeout → final < r.dur + unsuspTo tl t0 + P.thr
+  capped : r.reason = .capped → r.instant = dlAt
   cancelled : r.reason = .cancelled → ∃ c, cn = some c ∧ c.t = r.instant
   prompt : ∀ c, cn = some c → r.instant ≤ c.t
   armed : r.reason ≠ .cancelled → a ≤ r.instant
@@ -84,33 +138,45 @@ theorem cancelBefore_none {cn : Option Cancel} {w : Nat} (h : cancelBefore cn w 
   · simp at h
   · rename_i hn; omega
 
-theorem loop_spec (P : Params) (tl : List Ev) (cn : Option Cancel) (t0 final dl : Nat)
+theorem loop_spec (P : Params) (g : Nat) (tl : List Ev) (cn : Option Cancel) (t0 final dlAt : Nat) (dlPre : Bool)
     (hs : Sorted tl) (hb : Balanced tl) (hcn : ∀ c, cn = some c → t0 ≤ c.t) :
-    ∀ (fuel a d : Nat) (r : Result), t0 ≤ a → a ≤ dl → unsuspTo tl a + d = final →
-      loop P tl cn (unsuspTo tl t0) final dl fuel a d = some r → LoopOk P tl cn t0 final dl a r
-  | 0, _, _, _, _, _, _, h => by simp [loop] at h
-  | fuel + 1, a, d, r, h0, hdl, hinv, h => by
+    ∀ (fuel a d pT : Nat) (dv : List Delivery) (r : Result), t0 ≤ a → a ≤ dlAt → pT ≤ a → a ≤ pT + g →
+      final ≤ unsuspTo tl a + d → unsuspTo tl a + d ≤ final + unsuspended tl pT a →
+      loop P g tl cn (unsuspTo tl t0) final dlAt dlPre fuel a d pT dv = .done r →
+      LoopOk P g tl cn t0 final dlAt a r
+  | 0, _, _, _, _, _, _, _, _, _, _, _, h => by simp [loop] at h
+  | fuel + 1, a, d, pT, dv, r, h0, hdl, hp1, hp2, hinv1, hinv2, h => by
     unfold loop at h
     simp only at h
+    split at h
+    · cases h
+    rename_i hg
+    have hlipT := unsuspTo_lipschitz tl (a := a) (b := a + d) (by omega)
+    have hmono0 := unsuspTo_mono tl (a := t0) (b := a) h0
     split at h
     · -- cancelled
       rename_i tc hc
       obtain ⟨c, hc1, hc2, hc3⟩ := cancelBefore_some hc
-      simp only [Option.some.injEq] at h
+      simp only [Out.done.injEq] at h
       subst h
       have ht0 : t0 ≤ tc := hc2 ▸ hcn c hc1
-      have hbud : unsuspTo tl tc ≤ final := by
-        by_cases hle : a ≤ tc
-        · have := unsuspTo_lipschitz tl hle
-          have : tc ≤ a + d := Nat.le_trans hc3 (Nat.min_le_left _ _)
-          omega
-        · have := unsuspTo_mono tl (a := tc) (b := a) (by omega)
-          omega
+      have hat : tc ≤ a + d + nextLate dv := Nat.le_trans hc3 (Nat.min_le_left _ _)
+      have hstamp : min (a + d) tc ≤ a + d := Nat.min_le_left _ _
+      have hstamp2 : min (a + d) tc ≤ tc := Nat.min_le_right _ _
+      have hm1 := unsuspTo_mono tl hstamp
+      have hm2 := unsuspTo_mono tl hstamp2
+      have hm3 := unsuspTo_mono tl ht0
       exact {
         wall := Nat.le_trans hc3 (Nat.min_le_right _ _)
-        start := ht0
-        dur := by simp only [clockAt_total hs hb]
-        budget := hbud
+        start := by simp only; omega
+        stampLe := hstamp2
+        late := by simp only; omega
+        prevLe := hp1
+        prevLate := hp2
+        durUp := by simp only [clockAt_total hs hb]; omega
+        durLo := by simp only [clockAt_total hs hb]; omega
+        durExact := by intro _; simp only [clockAt_total hs hb]; omega
+        budgetStamp := by simp only; omega
         timeout := by intro h; cases h
         capped := by intro h; cases h
         cancelled := fun _ => ⟨c, hc1, hc2⟩
@@ -122,22 +188,33 @@ theorem loop_spec (P : Params) (tl : List Ev) (cn : Option Cancel) (t0 final dl 
         armed := by intro h; exact absurd rfl h }
     · rename_i hc
       have hnone := cancelBefore_none hc
-      have hlip := unsuspTo_lipschitz tl (a := a) (b := a + d) (by omega)
       split at h
-      · -- base timer expired at e = a + d ≤ dl
+      · -- base timer with stamp T = a + d handled at at_ = T + late ≤ dlAt
         rename_i he
-        rw [clockAt_totalWithTime hs hb] at h
-        have hmin : min (a + d) dl = a + d := Nat.min_eq_left he
+        have hat : a + d + nextLate dv ≤ dlAt := by omega
+        have hmin : min (a + d + nextLate dv) dlAt = a + d + nextLate dv := Nat.min_eq_left hat
+        split at h
+        · cases h
+        rename_i hv
+        have hbr := next_bracket hs hb (a + d) dv (by simpa using hv)
+        have hlipAt := unsuspTo_lipschitz tl (a := a + d) (b := a + d + nextLate dv) (by omega)
+        have hmT := unsuspTo_mono tl (a := a) (b := a + d) (by omega)
         split at h
         · -- timeout
           rename_i hd
-          simp only [Option.some.injEq] at h
+          simp only [Out.done.injEq] at h
           subst h
           exact {
-            wall := he
+            wall := hat
             start := by simp only; omega
-            dur := rfl
-            budget := by simp only; omega
+            stampLe := by simp only; omega
+            late := by simp only; omega
+            prevLe := hp1
+            prevLate := hp2
+            durUp := by simp only; omega
+            durLo := by simp only; omega
+            durExact := by intro h; exact absurd rfl h
+            budgetStamp := by simp only; omega
             timeout := by intro _; simp only; omega
             capped := by intro h; cases h
             cancelled := by intro h; cases h
@@ -146,22 +223,37 @@ theorem loop_spec (P : Params) (tl : List Ev) (cn : Option Cancel) (t0 final dl 
               have := hnone c hc'
               simp only; omega
             armed := by intro _; simp only; omega }
-        · -- re-arm
+        · -- re-arm at the handling instant
           rename_i hd
-          have ih := loop_spec P tl cn t0 final dl hs hb hcn fuel (a + d) (final - unsuspTo tl (a + d)) r
-            (by omega) he (by omega) h
+          have hgap : unsuspTo tl (a + d + nextLate dv) =
+              unsuspTo tl (a + d) + unsuspended tl (a + d) (a + d + nextLate dv) :=
+            unsuspTo_eq_add tl (by omega)
+          have ih := loop_spec P g tl cn t0 final dlAt dlPre hs hb hcn fuel (a + d + nextLate dv)
+            (final - (nextClk tl (a + d) dv).totalWithTime (a + d)) (a + d) dv.tail r
+            (by omega) hat (by omega) (by omega) (by omega) (by omega) h
           exact { ih with armed := fun hr => by have := ih.armed hr; omega }
-      · -- deadline of the base context
+      · -- deadline of the base context, delivered at dlAt ≤ at_
         rename_i he
-        simp only [Option.some.injEq] at h
+        simp only [Out.done.injEq] at h
         subst h
-        have hmin : min (a + d) dl = dl := Nat.min_eq_right (by omega)
-        have hlip2 := unsuspTo_lipschitz tl hdl
+        have hdlle : dlAt ≤ a + d + nextLate dv := by omega
+        have hmin : min (a + d + nextLate dv) dlAt = dlAt := Nat.min_eq_right hdlle
+        have hstamp : min (a + d) dlAt ≤ a + d := Nat.min_le_left _ _
+        have hstamp2 : min (a + d) dlAt ≤ dlAt := Nat.min_le_right _ _
+        have hm1 := unsuspTo_mono tl hstamp
+        have hm2 := unsuspTo_mono tl hstamp2
+        have hm3 := unsuspTo_mono tl (a := t0) (b := dlAt) (by omega)
         exact {
           wall := Nat.le_refl _
           start := by simp only; omega
-          dur := by simp only [clockAt_total hs hb]
-          budget := by simp only; omega
+          stampLe := hstamp2
+          late := by simp only; omega
+          prevLe := hp1
+          prevLate := hp2
+          durUp := by simp only [clockAt_total hs hb]; omega
+          durLo := by simp only [clockAt_total hs hb]; omega
+          durExact := by intro _; simp only [clockAt_total hs hb]; omega
+          budgetStamp := by simp only; omega
           timeout := by intro h; cases h
           capped := fun _ => rfl
           cancelled := by intro h; cases h
